@@ -175,6 +175,64 @@ fn crowded(t: Tier) -> BoxedStrategy<Case> {
         .boxed()
 }
 
+// --- results of composed operations --------------------------------------------------------------
+
+#[derive(Clone, Debug, Hash, Serialize, Deserialize)]
+pub struct CCase {
+    pub base: MM,
+    pub producers: Vec<Producer>,
+}
+
+pub fn composed(t: Tier) -> BoxedStrategy<CCase> {
+    (small_mm(16), proptest::collection::vec(producer_for_regular(t), 2..5)).prop_map(|(base, producers)| CCase { base, producers }).boxed()
+}
+
+/// The map under test is the result of 2..4 operations applied one after the other (rewrite of a
+/// flattened map, adjust of a rewritten one, ...). Returns it, or `Ok(None)` when a producer does not apply.
+pub fn build_composed(c: &CCase, obs: &mut Obs) -> Result<Option<sourcemap::DecodedMap>, String> {
+    let mut m = sourcemap::DecodedMap::Regular(c.base.build().map_err(|e| format!("building the model failed: {e}"))?);
+    for (k, p) in c.producers.iter().enumerate() {
+        obs.class(match p {
+            Producer::Direct => "step:none",
+            Producer::Rewrite { .. } => "step:rewrite",
+            Producer::WrapFlatten { .. } => "step:wrap+flatten",
+            Producer::Flatten => "step:flatten",
+            Producer::Adjust(_) => "step:adjust_mappings",
+            Producer::RoundTrip => "step:roundtrip",
+        });
+        m = match produce(m, p) {
+            Ok(m) => m,
+            Err(e) if e.starts_with("n/a:") => return Ok(None),
+            Err(e) => return Err(format!("step {k} {p:?}: {e}")),
+        };
+    }
+    Ok(Some(m))
+}
+
+fn check_composed(c: &CCase, obs: &mut Obs) -> Verdict {
+    let m = match build_composed(c, obs) {
+        Ok(Some(m)) => m,
+        Ok(None) => return Verdict::Pass,
+        Err(e) => return Verdict::Fail(e),
+    };
+    let bytes = match ser(&m) {
+        Ok(b) => b,
+        Err(e) => return Verdict::Fail(e),
+    };
+    let v: Value = match serde_json::from_slice(&bytes) {
+        Ok(v) => v,
+        Err(e) => return Verdict::Fail(format!("serialised form is not JSON: {e}")),
+    };
+    if let Err(e) = check_serialized_any(&m, &v, false) {
+        return Verdict::Fail(format!("after {:?}: {e}; output={}", c.producers, String::from_utf8_lossy(&bytes)));
+    }
+    let real = c.producers.iter().filter(|p| !matches!(p, Producer::Direct)).count();
+    if real >= 2 && c.base.tokens.len() >= 3 {
+        obs.nontrivial();
+    }
+    Verdict::Pass
+}
+
 // --- one living object: every mutator / read-only use, then serialise the *same* object again ---
 
 #[derive(Clone, Debug, Hash, Serialize, Deserialize)]
@@ -372,6 +430,7 @@ fn check_living(c: &HCase, obs: &mut Obs) -> Verdict {
 fn subs() -> Vec<Sub> {
     vec![
         gen_sub("living_object", living, |t| t.pick(50_000, 400_000), check_living),
+        gen_sub("composed_operations", composed, |t| t.pick(30_000, 300_000), check_composed),
         gen_sub("deep_nesting", deep, |t| t.pick(1_500, 12_000), check),
         gen_sub("crowded_positions", crowded, |t| t.pick(12_000, 80_000), check),
         gen_sub("large_maps", large, |t| t.pick(400, 3_000), check),
